@@ -1,3 +1,4 @@
+import Rp2.Proofs.ReportTotal
 import Rp2.Props.Tables.Templates
 import Rp2.Props.Tables.Countries
 import Rp2.Props.Tables.Sheets
@@ -16,4 +17,10 @@ theorem taxable_types_have_a_sheet : ∀ t ∈ allTypes, (t.isEarn || outOk t ||
 /-- the only ways the CLI model ends with a non-zero status before the generators are the documented rejections -/
 theorem files_are_reports (o : Cli.Options) (acctName holderOf : Nat → String) (cfgAssets : List String) (sheets : List Cli.AssetIn) :
     ∀ f ∈ (Cli.run o acctName holderOf cfgAssets sheets).files, ∃ m base, f.1 = Cli.fileName o.pfx m base := Cli.run_files o acctName holderOf cfgAssets sheets
+/-- the full-report generator model (with the repairs of F2, F4, F10) never ends in an internal error: the Tax sheet is always
+    large enough and a Summary line without detail rows carries no link -/
+theorem full_report_total (holderOf : Nat → String) (period : Int) (cs : List Computed) :
+    ∃ rows, genFull true true holderOf period cs = .ok rows := genFull_total holderOf period cs
+theorem tax_sheet_fits (cpa : Bool) (holderOf : Nat → String) (period : Int) (st : GenState) (c : Computed) :
+    (layoutAsset cpa holderOf period st c).dStart + c.fracs.length ≤ (layoutAsset cpa holderOf period st c).capacity := layout_fits cpa holderOf period st c
 end Rp2.C16
